@@ -350,7 +350,13 @@ def r19_6(ctx):
             ok = any(isinstance(x, ast.Call) and norm(x.func) in {b + ".append" for b in bufnames} for x in walk_local(f.node))
             ctx.check(ok, f.fq, "buffer.append(line)", f.where, "a trailing partial line is kept in the buffer", "FileProxy.write no longer keeps a trailing partial line in the buffer")
             # complete lines are printed in order: lines.append(...) then joined in order
-            ok = any(isinstance(x, ast.Call) and norm(x.func) == "lines.append" for x in walk_local(f.node)) and "for line in lines" in norm(f.node)
+            collects = any(isinstance(x, ast.Call) and norm(x.func) == "lines.append" for x in walk_local(f.node))
+            # or: `*lines, partial = text.split("\n")` - every newline-terminated piece, in order
+            for x in walk_local(f.node):
+                if isinstance(x, ast.Assign) and isinstance(x.targets[0], (ast.Tuple, ast.List)) and len(x.targets[0].elts) == 2 and isinstance(x.targets[0].elts[0], ast.Starred) and norm(x.targets[0].elts[0].value) == "lines" and norm(x.value) in ("text.split('\\n')",):
+                    collects = True
+            iterates = any(isinstance(x, (ast.For, ast.comprehension)) and norm(x.iter) == "lines" for x in ast.walk(f.node))
+            ok = collects and iterates
             ctx.check(ok, f.fq, "lines in order", f.where, "completed lines are collected and printed in order", "completed lines are no longer collected in order and printed")
     ctx.floor(n, 2, "buffer clears / pending reads")
 
